@@ -6,6 +6,8 @@
 
 pub mod tracker;
 pub mod checks;
+pub mod checks2;
+pub use checks::base_out as checks_base_out;
 
 use packing::traits::{Basis, State, ToSVG};
 use packing::{BuildOptimiser, MCOptimiser, SharedValue, StandardBasis};
@@ -428,14 +430,16 @@ impl State for ScriptedState {
     fn score(&self) -> Option<f64> {
         let mut rec = self.rec.lock().unwrap();
         let rec = &mut *rec;
-        self.read(&mut rec.scratch);
+        rec.scratch.clear();
         let mut diff = Vec::new();
-        for (i, v) in rec.scratch.iter().enumerate() {
+        for (i, p) in self.params.iter().enumerate() {
+            let v = p.get_value();
             let b = v.to_bits();
             if b != rec.prev[i] {
                 diff.push((i as u32, b));
                 rec.prev[i] = b;
             }
+            rec.scratch.push(v);
         }
         let score = self.land.eval(&rec.scratch);
         rec.obs.push(Obs { diff, score });
